@@ -45,6 +45,8 @@ type c07Task struct {
 	Kind int `json:"kind"` // index into c07Kinds
 	// -1: no hook-setup; 0..2: hook-setup with that snap; -2: hook-setup that does not unmarshal into HookSetup
 	Snap int `json:"snap"`
+	// Later: scheduled (Task.At) an hour ahead, so Ensure skips it and its change stays unready
+	Later bool `json:"later,omitempty"`
 }
 
 type c07World struct {
@@ -85,6 +87,9 @@ func (w *c07World) newTask(d c07Task) *state.Task {
 		t.Set("hook-setup", &hookstate.HookSetup{Snap: c07Snaps[d.Snap], Hook: "configure"})
 	case d.Snap == -2:
 		t.Set("hook-setup", "not-an-object")
+	}
+	if d.Later {
+		t.At(time.Now().Add(time.Hour))
 	}
 	return t
 }
@@ -197,23 +202,51 @@ func TestVerifC07Blocked(t *testing.T) {
 
 type c07Step struct {
 	Ensure bool `json:"ensure,omitempty"`
-	Finish int  `json:"finish,omitempty"` // when !Ensure: finish the (Finish mod n)-th goroutine (sorted by task id)
+	Finish int  `json:"finish,omitempty"` // when no other field is set: finish the (Finish mod n)-th goroutine (sorted by task id)
+	Spawn  *int `json:"spawn,omitempty"`  // create the deferred change with this index
+	Abort  *int `json:"abort,omitempty"`  // Change.Abort() on the change with this index
 }
 
 type c07RIn struct {
 	Changes [][]c07Task `json:"changes"`
 	Chain   []bool      `json:"chain"` // per change: tasks wait for the previous one
 	Steps   []c07Step   `json:"steps"`
+	// Deferred: per change, created by a Spawn step instead of at the start (may be shorter than Changes)
+	Deferred []bool `json:"deferred,omitempty"`
+	// Mode "cleanup": the scenario is evaluated by the cleanup monitor (a cleanup goroutine next to a running
+	// update-gadget-assets handler) instead of the handler-exclusion monitor
+	Mode string `json:"mode,omitempty"`
 }
 
-func c07RGen(r *vh.Rand, tier string, n int) []c07RIn {
-	var ins []c07RIn
+func c07Int(i int) *int { return &i }
+
+// the two scripted reproductions of "a cleanup goroutine runs next to update-gadget-assets" on the real runner
+func c07Scripted(mode string) []c07RIn {
+	a := c07Task{Kind: c07CleanupKind, Snap: -1}
+	gd := c07Task{Kind: 2, Snap: -1}
+	h := c07Task{Kind: 8, Snap: -1, Later: true}
+	return []c07RIn{
+		// same pass: change 0 became ready (its copy-snap-data task is done, not yet cleaned); the next Ensure starts its
+		// cleanup (not added to `running`) and, `running` being empty, also update-gadget-assets of change 1
+		{Mode: mode, Changes: [][]c07Task{{a}, {gd}}, Chain: []bool{false, false}, Deferred: []bool{false, true},
+			Steps: []c07Step{{Ensure: true}, {Finish: 0}, {Spawn: c07Int(1)}, {Ensure: true}}},
+		// later pass: update-gadget-assets is already executing; change 0 (done copy-snap-data task + a task scheduled
+		// for later) is aborted by the user, becomes ready, and the next Ensure starts the cleanup next to the gadget update
+		{Mode: mode, Changes: [][]c07Task{{a, h}, {gd}}, Chain: []bool{false, false}, Deferred: []bool{false, true},
+			Steps: []c07Step{{Ensure: true}, {Finish: 0}, {Spawn: c07Int(1)}, {Ensure: true}, {Abort: c07Int(0)}, {Ensure: true}, {Ensure: true}}},
+	}
+}
+
+func c07RGen(r *vh.Rand, tier string, n int) []c07RIn { return c07RGenMode(r, n, "") }
+
+func c07RGenMode(r *vh.Rand, n int, mode string) []c07RIn {
+	ins := c07Scripted(mode)
 	if n <= 0 {
 		n = 60
 	}
 	for i := 0; i < n; i++ {
 		rr := r.Fork()
-		in := c07RIn{}
+		in := c07RIn{Mode: mode}
 		for c := rr.Range(1, 5); c > 0; c-- {
 			var ts []c07Task
 			for k := rr.Range(1, 4); k > 0; k-- {
@@ -222,7 +255,7 @@ func c07RGen(r *vh.Rand, tier string, n int) []c07RIn {
 			in.Changes = append(in.Changes, ts)
 			in.Chain = append(in.Chain, rr.Chance(1, 3))
 		}
-		if rr.Chance(1, 2) { // a one-task change whose task has a cleanup handler, so that cleanups get started
+		if mode == "cleanup" || rr.Chance(1, 2) { // a one-task change whose task has a cleanup handler, so that cleanups get started
 			in.Changes = append(in.Changes, []c07Task{{Kind: c07CleanupKind, Snap: -1}})
 			in.Chain = append(in.Chain, false)
 		}
@@ -307,19 +340,32 @@ func c07RExec(in c07RIn) vh.Out {
 	}
 	w.runner.AddCleanup(c07Kinds[c07CleanupKind], cleanup)
 
-	w.st.Lock()
-	for ci, ts := range in.Changes {
+	chgs := make([]*state.Change, len(in.Changes))
+	spawn := func(ci int) { // caller holds the state lock
+		if ci < 0 || ci >= len(in.Changes) || chgs[ci] != nil {
+			return
+		}
 		chg := w.st.NewChange("verif", "verif")
+		chgs[ci] = chg
 		var prev *state.Task
-		for _, d := range ts {
+		for _, d := range in.Changes[ci] {
 			t := w.newTask(d)
+			g.mu.Lock()
 			g.desc[t.ID()] = d
-			if in.Chain[ci] && prev != nil {
+			g.mu.Unlock()
+			if ci < len(in.Chain) && in.Chain[ci] && prev != nil {
 				t.WaitFor(prev)
 			}
 			chg.AddTask(t)
 			prev = t
 		}
+	}
+	w.st.Lock()
+	for ci := range in.Changes {
+		if ci < len(in.Deferred) && in.Deferred[ci] {
+			continue
+		}
+		spawn(ci)
 	}
 	w.st.Unlock()
 
@@ -334,6 +380,21 @@ func c07RExec(in c07RIn) vh.Out {
 	tags := map[string]bool{}
 	nontrivial := false
 	for _, s := range in.Steps {
+		if s.Spawn != nil {
+			w.st.Lock()
+			spawn(*s.Spawn)
+			w.st.Unlock()
+			continue
+		}
+		if s.Abort != nil {
+			w.st.Lock()
+			if ci := *s.Abort; ci >= 0 && ci < len(chgs) && chgs[ci] != nil {
+				chgs[ci].Abort()
+				tags["abort"] = true
+			}
+			w.st.Unlock()
+			continue
+		}
 		if s.Ensure {
 			before := tombIDs()
 			w.st.Lock()
@@ -345,7 +406,7 @@ func c07RExec(in c07RIn) vh.Out {
 					continue
 				}
 				if t.Status() == state.DoStatus {
-					ok := true
+					ok := t.AtTime().IsZero() || !time.Now().Before(t.AtTime())
 					for _, wt := range t.WaitTasks() {
 						if wt.Status() != state.DoneStatus {
 							ok = false
@@ -383,12 +444,30 @@ func c07RExec(in c07RIn) vh.Out {
 			})
 			w.st.Lock()
 			handlersAfter := map[string]bool{}
+			var al []string
 			for id := range after {
-				if !w.st.Task(id).Status().Ready() {
+				al = append(al, id)
+			}
+			sort.Slice(al, func(i, j int) bool { a, _ := strconv.Atoi(al[i]); b, _ := strconv.Atoi(al[j]); return a < b })
+			var coqAfter []string
+			gadgetRunning, cleanupRunning := false, false
+			for _, id := range al {
+				isCleanup := w.st.Task(id).Status().Ready()
+				if !isCleanup {
 					handlersAfter[id] = true
+					if c07Kinds[g.desc[id].Kind] == "update-gadget-assets" {
+						gadgetRunning = true
+					}
+				} else {
+					cleanupRunning = true
 				}
+				coqAfter = append(coqAfter, "("+c07Coq(id, g.desc[id])+", "+vh.CoqBool(isCleanup)+")")
 			}
 			w.st.Unlock()
+			if gadgetRunning && cleanupRunning {
+				tags["cleanup-next-to-gadget-update"] = true
+			}
+			cases = append(cases, "(CTombs "+vh.CoqList(coqAfter)+")")
 			idle := map[string]bool{}
 			for _, id := range runnable {
 				if !after[id] {
@@ -436,3 +515,9 @@ func c07RExec(in c07RIn) vh.Out {
 }
 
 func TestVerifC07Run(t *testing.T) { vh.Run(c07RGen, c07RExec) }
+
+// the same scenarios (scripted reproductions first, every random one with a cleanup-capable change), evaluated by the
+// cleanup monitor: update-gadget-assets executing while a cleanup goroutine exists
+func TestVerifC07Cleanup(t *testing.T) {
+	vh.Run(func(r *vh.Rand, tier string, n int) []c07RIn { return c07RGenMode(r, n, "cleanup") }, c07RExec)
+}
